@@ -466,3 +466,12 @@ M("c07-push-leaf-attribute", "C07", "cstl_heap_push declared __attribute__((leaf
   ("include/cstl/heap.h", "void cstl_heap_push(struct cstl_heap * h, void * e);", "__attribute__((nothrow, leaf)) void cstl_heap_push(struct cstl_heap * h, void * e);"))
 M("c13-foreach-leaf-attribute", "C13", "cstl_slist_foreach declared __attribute__((leaf))",
   ("include/cstl/slist.h", "int cstl_slist_foreach(struct cstl_slist * sl,", "__attribute__((nothrow, leaf)) int cstl_slist_foreach(struct cstl_slist * sl,"))
+
+# a static temporary in a swap function: invisible to one thread, invisible at basic-block granularity (the window is three
+# inlined copies inside one block), visible when two threads that own their containers are interleaved instruction by instruction
+M("c12-swap-static-tmp", "C12", "cstl_dlist_swap keeps its temporary in a static variable",
+  ("src/dlist.c", "    struct cstl_dlist t;\n\n    cstl_swap(a, b, &t, sizeof(t));", "    static struct cstl_dlist t;\n\n    cstl_swap(a, b, &t, sizeof(t));"))
+M("c01-swap-static-tmp", "C01", "cstl_bintree_swap keeps its temporary in a static variable",
+  ("src/bintree.c", "    struct cstl_bintree t;\n    cstl_swap(a, b, &t, sizeof(t));", "    static struct cstl_bintree t;\n    cstl_swap(a, b, &t, sizeof(t));"), also=["C02", "C07"])
+M("c09-swap-static-tmp", "C09", "cstl_vector_swap keeps its temporary in a static variable",
+  ("src/vector.c", "    struct cstl_vector t;\n    cstl_swap(a, b, &t, sizeof(t));", "    static struct cstl_vector t;\n    cstl_swap(a, b, &t, sizeof(t));"))
